@@ -53,7 +53,7 @@ func VerifStartup() {
 	fs := frac.VerifFS
 	fs.Files, fs.Ops, fs.CrashAt = map[string]bool{}, 0, 0 // harness state is process-global: start clean
 	vServedActive, vServedSealed = nil, nil
-	scenario := rt.Choose(3)
+	scenario := rt.Choose(4)
 	var op func()
 	switch scenario {
 	case 0: // creation of an active fraction
@@ -61,6 +61,17 @@ func VerifStartup() {
 	case 1: // deletion of an active fraction (retention reaches a fraction that was never sealed)
 		a := frac.NewActive(vBase, nil, nil, cache.NewCache[[]byte](nil, nil), cache.NewCache[[]byte](nil, nil), &frac.Config{})
 		op = func() { a.Suicide() }
+	case 3: // sealing: proxyFrac.Seal = frac.Seal (sorted docs file, then index file, each written under a temporary name and renamed), then Active.Release (meta and docs removed)
+		cfg := &frac.Config{SkipSortDocs: rt.Choose(2) == 1}
+		fp := &fractionProvider{config: cfg, cacheProvider: NewCacheMaintainer(1<<20, 1<<20, nil)}
+		a := fp.NewActive(vBase)
+		frac.VerifMarkNonEmpty(a)
+		pf := &proxyFrac{active: a, fp: fp}
+		op = func() {
+			_, err := pf.Seal(frac.SealParams{})
+			rt.Assert(err == nil, "sealing succeeds on a healthy file system")
+			rt.Reach("sealed-and-released")
+		}
 	default: // deletion of a sealed fraction, with plain or sorted docs
 		if rt.Choose(2) == 0 {
 			fs.Files[vBase+".docs"] = true
